@@ -97,12 +97,12 @@ class MemoryStorage(StorageBase):
             data = None
         else:
             field_obj = fields[0]
-            data = [fields[0].data]
+            data = [fields[0].data.copy()]  # store copies like `append` does
             for field in fields[1:]:
                 if field_obj.grid != field.grid:
                     msg = "Grids of the fields are incompatible"
                     raise ValueError(msg)
-                data.append(field.data)
+                data.append(field.data.copy())
 
         return cls(
             times, data=data, field_obj=field_obj, info=info, write_mode=write_mode
